@@ -375,6 +375,26 @@ fn do_op(w: &mut World, op: &Value, e: &mut Map<String, Value>) -> Result<(), St
                 }
             }
         }
+        "bad_backfill" => {
+            // a backfill of the wrong size: documented to panic; afterwards the placeholder can never be filled
+            let id = geti(op, "id");
+            match w.tokens.remove(&id) {
+                Some((owner, tok)) => {
+                    e.insert("o".into(), json!(owner));
+                    let n = tok.len() + 1;
+                    let fill = &w.pools.consts[1][..n];
+                    match w.objs.get_mut(&owner) {
+                        Some(o) => o.backfill_or_panic(tok, fill),
+                        None => {
+                            e.insert("skip".into(), json!(1));
+                        }
+                    }
+                }
+                None => {
+                    e.insert("skip".into(), json!(1));
+                }
+            }
+        }
         "clear" => {
             obj!().clear();
             w.tokens.retain(|_, (owner, _)| *owner != oid);
@@ -500,7 +520,7 @@ pub fn drive_pipe(ops: &str, trace: &str) {
                     }
                     e.insert("panic".into(), json!(p));
                     e.insert("err".into(), json!(""));
-                    dead = true;
+                    dead = gets(op, "ev") != "bad_backfill";
                 }
             }
             w.observe(&mut e);
